@@ -406,6 +406,11 @@ def run(ctx):
         check_complement(ctx, res)
     with res.guard("check_directed_swapctx, res"):
         check_directed_swap(ctx, res)
+    with res.guard("G-REUSE"):
+        from ..lints import check_iterator_reuse
+
+        for d_ in ("configuration_model.configuration_model", "configuration_model._cm_MCMC", "directed_configuration_model.directed_configuration_model"):
+            check_iterator_reuse(ctx, res, d_)
     res.rules["P-SWAPATOMIC"] = "directed model: once the first node replacement of a swap step is done, the second is done on every path (no half swap)"
     with res.guard("check_swap_atomic"):
         check_swap_atomic(ctx, res)
